@@ -5,7 +5,7 @@ Import ListNotations.
 
 Definition ex_params (fixed : bool) : params :=
   mkParams 2 2 (fun x => match x with 0 => Direct | 1 => Pipe 0 | 2 => Pipe 1 | _ => Direct end)
-           (fun _ => None) fixed.
+           (fun _ => None) fixed (fun _ => false).
 
 (* call 0 is acknowledged and pending; call 1 is pipelined on its answer, call 2 on the answer of
    call 1; then call 0 returns and its queue is drained *)
@@ -24,7 +24,7 @@ Proof. vm_compute. reflexivity. Qed.
 
 (* the cap is reached: two implementations run at once with MaxConcurrentCalls = 2, and a third
    call waits for a slot *)
-Definition ex_params2 : params := mkParams 2 1 (fun _ => Direct) (fun _ => None) true.
+Definition ex_params2 : params := mkParams 2 1 (fun _ => Direct) (fun _ => None) true (fun _ => false).
 Definition ex_sched2 : list tid := [TStart 0; TAck 0; TStart 0; TStart 1; TAck 1; TStart 1; TStart 2].
 Example cap_reached :
   let c := run ex_params2 (init ex_params2) ex_sched2 in
@@ -39,3 +39,40 @@ Example shutdown_waits :
   let c2 := run ex_params2 (init ex_params2) ex_sched3 in
   shpc c1 = ShWait /\ shcount c1 = 0 /\ shpc c2 = ShDone /\ shcount c2 = 1 /\ compl c2 0 = [CErr 0].
 Proof. vm_compute. auto. Qed.
+
+(* the known finding "self-pipelining deadlock" on the model: MaxConcurrentCalls = 1, call 0 is
+   acknowledged, call 1 is queued on its answer, call 0 returns ok and its goroutine is inside the
+   drain loop (IDrain) holding the only slot. If the result capability is the server itself, the
+   delivery of call 1 is a nested Server.start executed BY THAT GOROUTINE; in the model this nested
+   start is the start thread of call 2: it takes the gate, finds no free slot and waits on full
+   (SWaitFull); its next step is not enabled, and the only thread that could free a slot is
+   TImpl 0 - the goroutine that, in the implementation, is the one blocked in the nested start. *)
+Definition ex_params_self : params :=
+  mkParams 1 1 (fun x => match x with 1 => Pipe 0 | _ => Direct end) (fun _ => None) true (fun _ => false).
+Definition ex_sched_self : list tid :=
+  [TStart 0; TAck 0; TStart 0; TPipe 1; TRet 0 false; TImpl 0; TStart 2].
+Example self_pipe_blocked :
+  let c := run ex_params_self (init ex_params_self) ex_sched_self in
+  ipc c 0 = IDrain /\ ongoing c = [Some 0] /\ spc c 2 = SWaitFull /\ full c = Some 2 /\
+  step ex_params_self c (TStart 2) = None /\ step ex_params_self c (TStartCtx 2) = None.
+Proof. vm_compute. repeat split. Qed.
+
+(* a call arriving during the drain: call 1 (slow target) and call 2 are queued on answer 0; the
+   drain loop delivers 1 and blocks (ADrainWait); call 3 arrives now: it waits (PWaitReady) and
+   cannot be delivered; after the acknowledgement the loop delivers 2, ends, and only then 3 is
+   passed through: delivery order 1, 2, 3 *)
+Definition ex_params_mid : params :=
+  mkParams 1 2 (fun x => match x with 0 => Direct | _ => Pipe 0 end) (fun _ => None) true
+           (fun x => Nat.eqb x 1).
+Definition ex_sched_mid : list tid :=
+  [TStart 0; TAck 0; TStart 0; TPipe 1; TPipe 2; TRet 0 false; TImpl 0; TImpl 0; TPipe 3; TPipe 3; TImpl 0].
+Example mid_drain_blocked :
+  let c := run ex_params_mid (init ex_params_mid) ex_sched_mid in
+  aq_ph c 0 = ADrainWait 1 /\ ppc c 1 = PDelivered /\ ppc c 2 = PQueued /\ ppc c 3 = PWaitReady /\
+  step ex_params_mid c (TPipe 3) = None /\ step ex_params_mid c (TImpl 0) = None.
+Proof. vm_compute. repeat split. Qed.
+Example mid_drain_order :
+  let c := run ex_params_mid (init ex_params_mid) (ex_sched_mid ++ [TDrainAck 0; TPipe 3; TImpl 0; TPipe 3; TImpl 0; TPipe 3]) in
+  filter (fun e => match e with EvDeliver _ _ => true | _ => false end) (rev (trace c))
+  = [EvDeliver 1 (DRes 0); EvDeliver 2 (DRes 0); EvDeliver 3 (DRes 0)].
+Proof. vm_compute. reflexivity. Qed.
